@@ -191,6 +191,14 @@ pub enum Op
     XDesp(u8),
     XDespRec(u8),
     XRm(u8, u8),
+    /// `World::broadcast` / `World::entity_event` / `World::send_system_event` from a closure with `&mut World`
+    XBc(u8, u32),
+    XEEv(u8, u8, u32),
+    XSysEv(u8, u32),
+    /// `ReactiveMut::single_mut` / `set_single_if_not_eq` / `single_noreact` (skipped unless exactly this entity has the component)
+    SMut(u8, u8, u32),
+    SSet(u8, u8, u32),
+    SNo(u8, u8, u32),
     DespSys(u8),
     /// mode, system, bundle, token id (0 = none)
     Reg(String, u8, Vec<Trig>, u32),
@@ -239,6 +247,12 @@ impl Op
             "xdesp" => Op::XDesp(n8(1)),
             "xdesprec" => Op::XDespRec(n8(1)),
             "xrm" => Op::XRm(n8(1), n8(2)),
+            "xbc" => Op::XBc(n8(1), n32(2)),
+            "xeev" => Op::XEEv(n8(1), n8(2), n32(3)),
+            "xsysev" => Op::XSysEv(n8(1), n32(2)),
+            "smut" => Op::SMut(n8(1), n8(2), n32(3)),
+            "sset" => Op::SSet(n8(1), n8(2), n32(3)),
+            "sno" => Op::SNo(n8(1), n8(2), n32(3)),
             "despsys" => Op::DespSys(n8(1)),
             "reg" => Op::Reg(a[1].as_str().unwrap().to_string(), n8(2), bundle_from(&a[3]), n32(4)),
             "once" => Op::Once(n8(1), bundle_from(&a[2]), n32(3)),
@@ -278,6 +292,12 @@ impl Op
             Op::XDesp(e) => json!(["xdesp", e]),
             Op::XDespRec(e) => json!(["xdesprec", e]),
             Op::XRm(e, c) => json!(["xrm", e, c]),
+            Op::XBc(t, p) => json!(["xbc", t, p]),
+            Op::XEEv(e, t, p) => json!(["xeev", e, t, p]),
+            Op::XSysEv(s, p) => json!(["xsysev", s, p]),
+            Op::SMut(e, c, v) => json!(["smut", e, c, v]),
+            Op::SSet(e, c, v) => json!(["sset", e, c, v]),
+            Op::SNo(e, c, v) => json!(["sno", e, c, v]),
             Op::DespSys(s) => json!(["despsys", s]),
             Op::Reg(m, s, b, k) => json!(["reg", m, s, bundle_to(b), k]),
             Op::Once(s, b, k) => json!(["once", s, bundle_to(b), k]),
